@@ -488,7 +488,12 @@ pub fn o_intr(c: &Ctx, t: &Trace, out: &mut Vec<Violation>) {
     // yield before first-polling a freshly pushed future). "Started" provably equals "handed
     // out" only at quiescent points, so for that injection mode the bound is asserted on the
     // hand-outs after the first quiescent point that follows the signal.
-    let inside_concurrent = rs.api.is_concurrent_call() && matches!(rs.signal, SignalPlan::AtStart(_) | SignalPlan::AtEnd(_));
+    // The same holds for a signal that the director sent between two polls while the call was
+    // not quiescent (the last poll returned Pending with a wake-up already outstanding).
+    let last_pending_woken = t.log[..sig_pos].iter().rev().find_map(|e| if let Ev::Pending { woken } = e { Some(*woken) } else { None }).unwrap_or(false);
+    let inside_concurrent = rs.api.is_concurrent_call()
+        && !before_first_poll
+        && (matches!(rs.signal, SignalPlan::AtStart(_) | SignalPlan::AtEnd(_)) || last_pending_woken);
     let count_from = if inside_concurrent {
         match t.log[sig_pos..].iter().position(|e| *e == Ev::Quiescent) {
             Some(q) => sig_pos + q,
